@@ -1275,7 +1275,10 @@ def read_href_element(et: ET.Element) -> Optional[str]:
     if et.text is None:
         return None
     el = urllib.parse.unquote(et.text)
-    parsed_url = urllib.parse.urlsplit(el)
+    try:
+        parsed_url = urllib.parse.urlsplit(el)
+    except ValueError:
+        return None
     # TODO(jelmer): Check that the hostname matches the local hostname?
     return parsed_url.path
 
